@@ -330,6 +330,27 @@ func c20Calls(thorough bool) []jcall {
 			}
 		}
 	}
+	// fractional values at the TOP and BOTTOM of every numeric range (truncated first, range-checked afterwards: 10.5
+	// is the window 10, 3600.9 the period 3600, 0.9 the period 0 - which is refused): the bound must be applied to the
+	// truncated number on both sides of the binding
+	for ai, al := range []string{"SHA1", "SHA256", "SHA512"} {
+		an := refAlgo(al)
+		for _, sk := range []any{10.5, 10.999, 9.999, 0.5, 0.999, 11.5, 10.0000001} {
+			for dist := int64(-11); dist <= 11; dist += 11 {
+				c := int64(40 + ai)
+				add("fractional-at-bounds", "validateHOTP", u, ref.HOTP(c20Key, uint64(c+dist), 6, an), c, "6", al, sk)
+				add("fractional-at-bounds", "validateTOTP", u, ref.HOTP(c20Key, uint64(c+dist), 6, an), c*30+7, "6", al, sk, 30)
+			}
+		}
+		for _, per := range []any{3600.5, 3600.999, 3599.999, 1.5, 1.999, 0.5, 0.999, 3601.5} {
+			add("fractional-at-bounds", "generateTOTP", u, 1111111109, "8", al, per)
+			add("fractional-at-bounds", "validateTOTP", u, ref.HOTP(c20Key, ref.Step(1111111109, 3600), 6, an), 1111111109, "6", al, 1, per)
+		}
+		for _, ts := range []any{0.5, 0.999, 29.999, 9007199254740991.0, 4294967295.5, 2147483647.5} {
+			add("fractional-at-bounds", "generateHOTP", u, ts, "6", al)
+			add("fractional-at-bounds", "generateTOTP", u, ts, "6", al, 30)
+		}
+	}
 	// other spellings of a genuine code: a sign or blank for a leading zero, a leading zero dropped, letters for digits,
 	// other digit scripts - a validator that reads the code as a NUMBER accepts some of them
 	for _, d := range []string{"6", "8"} {
